@@ -228,3 +228,44 @@ Example C12_ex_synth_clip_root :
   snd r = true /\ gb_obj (fst r) = mkbox 0 0 20 20 /\ gb_abs_layer (fst r) = mkbox 0 0 20 20 /\
   chk_contains [] [rect] (fst r) = true /\ chk_contains [] [rect] dummy_boxes = false.
 Proof. vm_compute. repeat split. Qed.
+
+(* ------------------------------------------------------------------ extension round 4 (b): fill box <= stroke box <= layer box *)
+(* A leaf whose fill box lies inside its stroke box (checked for every dumped path by the correspondence `leaf-sandwich`):
+   the layer box and the stroke box of its parent group (no filters) contain the leaf's stroke box AND its fill box. *)
+Theorem C12_fill_in_stroke_in_layer : forall abs_ts prev cs g b,
+  calculate_bounding_boxes abs_ts [] prev cs = (g, true) ->
+  (forall c, In c (live cs) -> child_valid c = true) ->
+  In (CLeaf b) cs -> contains (lb_stroke b) (lb_obj b) ->
+  contains (gb_layer g) (lb_stroke b) /\ contains (gb_layer g) (lb_obj b) /\ contains (gb_stroke g) (lb_obj b).
+Proof. exact fill_in_stroke_in_layer. Qed.
+Print Assumptions C12_fill_in_stroke_in_layer.
+
+(* The layer box of a group without filters is EXACTLY the union of its live children's layer boxes (leaf: stroke box; group:
+   its layer box mapped by its transform, when that survives): it is that union, and each of its four sides is attained by a
+   child - nothing is added, nothing is lost.  (With filters: the layer box IS the filter region, C12_parent_contains_children.) *)
+Theorem C12_layer_box_is_union : forall abs_ts prev cs g,
+  calculate_bounding_boxes abs_ts [] prev cs = (g, true) ->
+  to_nonzero (union_opt c_layer cs) = Some (gb_layer g) /\
+  (exists c r, In c (live cs) /\ c_layer c = Some r /\ bx0 (gb_layer g) == bx0 r) /\
+  (exists c r, In c (live cs) /\ c_layer c = Some r /\ by0 (gb_layer g) == by0 r) /\
+  (exists c r, In c (live cs) /\ c_layer c = Some r /\ bx1 (gb_layer g) == bx1 r) /\
+  (exists c r, In c (live cs) /\ c_layer c = Some r /\ by1 (gb_layer g) == by1 r).
+Proof. exact layer_box_is_union. Qed.
+Print Assumptions C12_layer_box_is_union.
+
+(* the inflation bound of the sandwich is at least half the stroke width, and inflating is monotone *)
+Theorem C12_stroke_radius_ge_half : forall w ml join cap, 0 <= w -> w / 2 <= stroke_radius w ml join cap.
+Proof. exact stroke_radius_ge_half. Qed.
+Print Assumptions C12_stroke_radius_ge_half.
+Theorem C12_inflate_monotone : forall b c r s, contains b c -> r <= s -> contains (inflate b s) (inflate c r).
+Proof. exact inflate_mono. Qed.
+Print Assumptions C12_inflate_monotone.
+
+(* a 100 x 50 rectangle stroked with width 8, miter join (limit 4), butt caps: stroke box = fill box grown by 4 passes; a stroke box
+   grown by 20 (> 4 * 4 * 1.05) or one that does not contain the fill box fails *)
+Example C12_ex_sandwich :
+  chk_leaf_sandwich (1 # 100) true 8 4 0 0 (mkbox 10 10 110 60) (mkbox 6 6 114 64) = true /\
+  chk_leaf_sandwich (1 # 100) true 8 4 0 0 (mkbox 10 10 110 60) (mkbox (-10) 6 114 64) = false /\
+  chk_leaf_sandwich (1 # 100) true 8 4 0 0 (mkbox 10 10 110 60) (mkbox 12 6 114 64) = false /\
+  chk_leaf_sandwich (1 # 100) false 0 4 0 0 (mkbox 10 10 110 60) (mkbox 10 10 110 60) = true.
+Proof. vm_compute. repeat split. Qed.
